@@ -17,6 +17,7 @@ SCHEMES = {
     "str": lambda n: ["a", "b", "c", "d", "e", "f"][:n],
     "mixed": lambda n: [0, "b", 2, "d", 4, "f"][:n],
     "tuple": lambda n: [("q", i) for i in range(n)],
+    "bool": lambda n: [True, False][:n],                       # the python constants are hashable, hence labels like any other (n <= 2)
     "rstr": lambda n: ["z", "y", "x", "w", "v", "u"][:n],     # descending strings: insertion order != sorted order
 }
 MATRIX_SCHEMES = ("int", "gap")
